@@ -295,7 +295,10 @@ _ALSO = {
             "and a Joint one continues it, at the start of a symbol and inside one (70 cases); inside a list the macro's list "
             "parser consumes a token itself exactly for a `.` standing Alone (the dotted-tail marker) - a `.` glued to "
             "further punctuation, every other punctuation character and a `-` before a literal go to the element parser "
-            "unconsumed, whatever follows (384 token vectors).",
+            "unconsumed, whatever follows (384 token vectors); the element parser consumes exactly the tokens of each "
+            "documented form (identifier, literal, group, #t/#f/#nil, #\"..\", #(..), #:name, #:\"..\", :name, :\"..\", "
+            "negative literal, unquote, punctuation symbols) whatever token follows - nothing is glued on, nothing left "
+            "over (16 forms x 11 followers).",
             "abstract evaluation of the macro crate's token parser per punctuation character, compared with byte classes "
             "and token kinds extracted from the text parser"),
     "C10": ("around each nested construct (list, vector, byte vector, quote shorthand) both APIs can raise exactly the same "
